@@ -382,11 +382,14 @@ Qed.
 (* ------------------------------------------------------------------ *)
 (* the theorems                                                        *)
 (* ------------------------------------------------------------------ *)
+Lemma rmap_from_program p k : rmap (from_program p) k = number (declared k p).
+Proof. destruct k; reflexivity. Qed.
+
 Lemma lookup_rename s p k i :
   injective_on (ids p) s -> In (k, i) (ids p) ->
   lookup (from_program (rename s p)) k (s k i) = lookup (from_program p) k i.
 Proof.
-  intros Hinj Hi. unfold lookup, from_program, rename. rewrite declared_map_ids.
+  intros Hinj Hi. unfold lookup. rewrite !rmap_from_program. unfold rename. rewrite declared_map_ids.
   rewrite number_map.
   - apply m_get_map_keys. intros a Ha Heq. apply (Hinj k); [| exact Hi | exact Heq].
     apply declared_in_ids. apply number_keys. exact Ha.
@@ -413,7 +416,7 @@ Proof. intros s p H _. apply canon_invariant_strong. exact H. Qed.
 Lemma wf_lookup p k i : well_formed p -> In (k, i) (ids p) ->
   is_some (lookup (from_program p) k i) = true.
 Proof.
-  intros [_ Hdecl] Hi. unfold lookup, from_program. apply m_get_in_keys. apply number_keys_ge.
+  intros [_ Hdecl] Hi. unfold lookup. rewrite rmap_from_program. apply m_get_in_keys. apply number_keys_ge.
   apply Hdecl. exact Hi.
 Qed.
 
@@ -430,7 +433,7 @@ Qed.
 Lemma canon_renaming_injective p : well_formed p ->
   injective_on (ids p) (fun k i => or0 (lookup (from_program p) k i)).
 Proof.
-  intros [Hnd Hdecl] k a b Ha Hb Heq. unfold lookup, from_program in Heq.
+  intros [Hnd Hdecl] k a b Ha Hb Heq. unfold lookup in Heq. rewrite rmap_from_program in Heq.
   apply (number_inj (declared k p)); auto.
 Qed.
 
@@ -448,7 +451,7 @@ Theorem canon_declared : forall p c k, well_formed p -> canon p = Ok c ->
   declared k c = nums 0 (length (declared k p)).
 Proof.
   intros p c k Hwf Hc. pose proof (canon_total p Hwf) as Ht. rewrite Hc in Ht. injection Ht as ->.
-  rewrite declared_map_ids. unfold lookup, from_program. destruct Hwf as [Hnd _].
+  rewrite declared_map_ids. unfold lookup. rewrite rmap_from_program. destruct Hwf as [Hnd _].
   rewrite number_nodup by apply Hnd.
   apply map_get_combine; [apply Hnd|]. rewrite nums_length. reflexivity.
 Qed.
